@@ -10,7 +10,9 @@ set -u
 kind=$1; glob=${2:-*}
 cd /verif
 export GOFLAGS=-mod=mod GOPROXY=off GOSUMDB=off GOTOOLCHAIN=local GOWORK=off
-(cd ufcheck && go build -o ../bin/ufcheck .) || exit 2
+# UFBIN=<frozen binary>: sweep with the checker as it was (as-found measurements); default: rebuild
+if [ -z "${UFBIN:-}" ]; then (cd ufcheck && go build -o ../bin/ufcheck .) || exit 2; UFBIN=/verif/bin/ufcheck; fi
+export UFBIN
 root=$(mktemp -d "${TMPDIR:-/tmp}/fastsweep-XXXXXX")
 trap 'rm -rf "$root"' EXIT
 git -C /repo archive HEAD | (mkdir -p $root/base && tar -x -C $root/base --exclude=examples/proxy/adguard_base_filter.txt)
@@ -20,7 +22,7 @@ one() {
   sc=$root/$n
   cp -r $root/base $sc
   if ! (cd $sc && patch -s -p1 < /verif/$d/patch.diff >/dev/null 2>&1); then echo "$n: PATCH DOES NOT APPLY"; rm -rf $sc; return; fi
-  out=$(/verif/bin/ufcheck -repo $sc -verif /verif -p all 2>&1)
+  out=$($UFBIN -repo $sc -verif /verif -p all 2>&1)
   rm -rf $sc
   hits=$(echo "$out" | grep '^RESULT' | grep -v 'rc=0' | sed 's/RESULT //; s/ rc=/:/' | tr '\n' ' ')
   if [ "$kind" = benign ]; then
